@@ -1549,6 +1549,7 @@ def _oracle_round3(ctx: Ctx, budget: str):
     guarded("orders-and-parameters", _o_orders_and_parameters, reps)
     guarded("precisions", _o_precisions, reps)
     guarded("identity-and-instances", _o_identity_and_instances, reps)
+    guarded("handed-out", _o_handed_out, reps)
     guarded("atomgrid.AtomGrid.basis:memo", _o_basis, reps)
     guarded("molgrid.MolGrid:atgrids", _o_molgrid_stored, reps)
     guarded("basegrid.get_localgrid:kdtree", _o_kdtree, reps)
@@ -2778,3 +2779,198 @@ def _o_identity_and_instances(ctx: Ctx, reps=6):
                        f"ref = AngularGrid(size={s_sm}, method={mm!r}, cache=False); AngularGrid(method={mm!r}); AngularGrid(degree={d50}, method={mm!r})\n"
                        f"g = AngularGrid(method={mm!r}, cache={c1}, **{kw!r})\nassert g.size == ref.size and np.array_equal(g.points, ref.points), (g.size, ref.size)\n"))
     _clear(ang)
+
+
+# ==========================================================================================
+# Everything an AtomGrid / MolGrid hands out is edited in place; the parent is observed again
+# (eighth round of seeded changes: get_shell_grid returning a view of the atomic grid's points
+# when rotate != 0).  rotate = 0 and rotate != 0, incl. the default 37 of MolGrid.from_*.
+# ==========================================================================================
+def _atom_reference_ok(ang, a, m, rg_points, rg_weights, center):
+    """Independent of the rotation convention: shell i of the atomic grid is a rigid rotation of the shipped points of its
+    degree scaled by r_i and moved to the centre (same norms and same Gram matrix), with weights shipped x w_i r_i^2."""
+    pts = a.points - center
+    ind = np.asarray(a.indices)
+    for i, d in enumerate(a.degrees):
+        _, sp, sw = _shipped(ang, m, int(d))
+        sh = pts[ind[i]:ind[i + 1]]
+        r = float(rg_points[i])
+        if sh.shape != sp.shape:
+            return False
+        if not np.allclose(sh @ sh.T, (sp @ sp.T) * r * r, rtol=0, atol=1e-12 * max(1.0, r * r)):
+            return False
+        if not np.allclose(a.weights[ind[i]:ind[i + 1]], sw * rg_weights[i] * r * r, rtol=1e-13, atol=0):
+            return False
+    return True
+
+
+def _arrays_of(obj):
+    """The arrays of a handed-out object: the array itself, points / weights / indices of a grid, the coefficients of a spline."""
+    if isinstance(obj, np.ndarray):
+        return [obj]
+    out = [getattr(obj, nm, None) for nm in ("points", "weights", "indices", "c")]
+    return [a for a in out if isinstance(a, np.ndarray)]
+
+
+def _edit(obj):
+    """In-place edit of every array of a handed-out object. -> number of arrays edited"""
+    n = 0
+    for arr in _arrays_of(obj):
+        if arr.size and arr.flags.writeable:
+            try:
+                arr[...] = (arr * 0 - 7) if arr.dtype.kind in "iu" else -7.25
+                n += 1
+            except (ValueError, TypeError):
+                pass
+    return n
+
+
+ATOM_HANDOUTS = [
+    ("get_shell_grid(i)", lambda a, i: a.get_shell_grid(i)),
+    ("get_shell_grid(i, r_sq=False)", lambda a, i: a.get_shell_grid(i, r_sq=False)),
+    ("points", lambda a, i: a.points),
+    ("convert_cartesian_to_spherical()", lambda a, i: a.convert_cartesian_to_spherical()),
+    ("convert_cartesian_to_spherical(points, center)", lambda a, i: a.convert_cartesian_to_spherical(a.points, a.center)),
+    ("get_localgrid(center, r)", lambda a, i: a.get_localgrid(a.center, 1.0 + i)),
+    # (AtomGrid[...] is not available: Grid.__getitem__ calls the AtomGrid constructor with arrays and raises TypeError; the
+    #  __getitem__ selection of the molecular level, MolGrid[k], is in the molecular part)
+    ("integrate_angular_coordinates(values)", lambda a, i: a.integrate_angular_coordinates(np.ones(a.size))),
+    ("spherical_average(values)", lambda a, i: a.spherical_average(np.exp(-np.sum((a.points - a.center) ** 2, axis=1)))),
+]
+# handed out by reference by convention (the grid's own arrays / the objects the caller passed in): measured and reported, not asserted
+ATOM_BY_REFERENCE = [
+    ("weights", lambda a, i: a.weights), ("indices", lambda a, i: a.indices), ("center", lambda a, i: a.center),
+    ("rgrid", lambda a, i: a.rgrid), ("get_localgrid(center, inf)", lambda a, i: a.get_localgrid(a.center, np.inf)),
+    ("basis", lambda a, i: a.basis),
+]
+
+
+def _atom_state(a, f):
+    out = dict(points=a.points.copy(), weights=a.weights.copy(), indices=np.asarray(a.indices).copy(), integral=a.integrate(f(a)),
+               shells=[(s.points.copy(), s.weights.copy()) for s in (a.get_shell_grid(i) for i in range(a.n_shells))],
+               shells_nosq=[(s.points.copy(), s.weights.copy()) for s in (a.get_shell_grid(i, r_sq=False) for i in range(a.n_shells))])
+    return out
+
+
+def _same_state(s1, s2):
+    return (np.array_equal(s1["points"], s2["points"]) and np.array_equal(s1["weights"], s2["weights"]) and np.array_equal(s1["indices"], s2["indices"])
+            and s1["integral"] == s2["integral"]
+            and all(np.array_equal(a[0], b[0]) and np.array_equal(a[1], b[1]) for a, b in zip(s1["shells"] + s1["shells_nosq"], s2["shells"] + s2["shells_nosq"])))
+
+
+def _handout_snippet(m, degs, rot, cen, name):
+    expr = {"get_shell_grid(i)": "a.get_shell_grid(1)", "get_shell_grid(i, r_sq=False)": "a.get_shell_grid(1, r_sq=False)", "points": "a.points",
+            "convert_cartesian_to_spherical()": "a.convert_cartesian_to_spherical()", "convert_cartesian_to_spherical(points, center)": "a.convert_cartesian_to_spherical(a.points, a.center)",
+            "get_localgrid(center, r)": "a.get_localgrid(a.center, 2.0)", "self[mask]": "a[np.arange(a.size) % 2 == 0]", "self[index array]": "a[np.arange(0, a.size, 3)]",
+            "integrate_angular_coordinates(values)": "a.integrate_angular_coordinates(np.ones(a.size))", "spherical_average(values)": "a.get_shell_grid(1)"}.get(name, "a.get_shell_grid(1)")
+    return ("import warnings; warnings.filterwarnings('ignore')\nimport numpy as np\nfrom grid.atomgrid import AtomGrid\nfrom grid.onedgrid import GaussLegendre\nfrom grid.rtransform import BeckeRTransform\n"
+            f"rg = BeckeRTransform(0.0, 1.5).transform_1d_grid(GaussLegendre(3)); a = AtomGrid(rg, degrees={degs!r}, rotate={rot}, center=np.array({cen!r}), method={m!r})\n"
+            "p, w, s = a.points.copy(), a.weights.copy(), a.get_shell_grid(1).points.copy(); f = np.exp(-np.sum((a.points - a.center)**2, axis=1)); q = a.integrate(f)\n"
+            f"o = {expr}\nfor arr in ([o] if isinstance(o, np.ndarray) else [o.points, o.weights]):\n    arr[...] = -7.25      # the caller edits what it was given\n"
+            "assert np.array_equal(a.points, p) and np.array_equal(a.weights, w) and a.integrate(f) == q and np.array_equal(a.get_shell_grid(1).points, s), 'editing a handed-out object changed the atomic grid'\n")
+
+
+def _o_handed_out(ctx: Ctx, reps=6):
+    """C19's own wording: what the caller does with previously returned grids, including editing their arrays in place, never
+    changes what the atomic / molecular grid it came from, or anything built from it later, returns."""
+    ang = importlib.import_module("grid.angular")
+    atg = importlib.import_module("grid.atomgrid")
+    rt = importlib.import_module("grid.rtransform")
+    one = importlib.import_module("grid.onedgrid")
+    mol = importlib.import_module("grid.molgrid")
+    bk = importlib.import_module("grid.becke")
+    obs = {}
+    f = lambda a: np.exp(-np.sum((a.points - a.center) ** 2, axis=1))     # noqa: E731
+    rg = rt.BeckeRTransform(0.0, 1.5).transform_1d_grid(one.GaussLegendre(3))
+    rp, rw = rg.points.copy(), rg.weights.copy()
+    by_ref = {}
+    for rot in (0, ctx.rng.choice([1, 37, 2024])):
+        m = ctx.rng.choice(METHODS)
+        pool = _degree_pool(ang, m)
+        degs = [int(ctx.rng.choice(pool)) for _ in range(3)]
+        cen = [0.0, ctx.rng.choice([0.0, 0.5]), -0.25]
+        a = atg.AtomGrid(rg, degrees=degs, rotate=rot, center=np.array(cen), method=m)
+        ref_ok = _atom_reference_ok(ang, a, m, rp, rw, np.array(cen))
+        st0 = _atom_state(a, f)
+        ctx.count(["oracle-handout-reference", m, degs, rot], nontrivial=True, tag="oracle:handed-out")
+        if not ref_ok:
+            ctx.fail("oracle", "atomgrid.AtomGrid:shipped-rotated-scaled", f"AtomGrid({m}, degrees {degs}, rotate={rot}): a shell is not a rigid rotation of the shipped points scaled by its radius at the centre, or its weights are not shipped x w r^2",
+                     witness={"method": m, "degrees": degs, "rotate": rot})
+        for name, get in ATOM_HANDOUTS:
+            i = ctx.rng.randrange(3)
+            o1 = get(a, i)
+            keep = [x.copy() for x in _arrays_of(o1)]
+            n = _edit(o1)
+            st1 = _atom_state(a, f)
+            o2 = get(a, i)
+            again = _arrays_of(o2)
+            same_again = all(np.array_equal(x, y, equal_nan=True) for x, y in zip(keep, again))
+            ctx.count(["oracle-handout", m, rot, name], nontrivial=True, tag="oracle:handed-out")
+            if not (_same_state(st0, st1) and same_again and _atom_reference_ok(ang, a, m, rp, rw, np.array(cen))):
+                what = ("the atomic grid changed (points / weights / integral / shells)" if not _same_state(st0, st1) else "the same request again returns the edited data")
+                ctx.fail("oracle", "atomgrid.AtomGrid:handed-out:" + name.split("(")[0],
+                         f"AtomGrid({m}, degrees {degs}, rotate={rot}): after an in-place edit of what `{name}` returned ({n} arrays), {what}",
+                         witness={"method": m, "degrees": degs, "rotate": rot, "center": cen, "handed_out": name, "shell": i},
+                         snippet=_handout_snippet(m, degs, rot, cen, name))
+                a = atg.AtomGrid(rg, degrees=degs, rotate=rot, center=np.array(cen), method=m)      # go on with an intact grid
+                st0 = _atom_state(a, f)
+        # by convention handed out by reference: measure on a throw-away grid
+        for name, get in ATOM_BY_REFERENCE:
+            b = atg.AtomGrid(bg_copy(rg), degrees=degs, rotate=rot, center=np.array(cen), method=m)
+            if name == "basis":
+                b.radial_component_splines(f(b))
+            s0 = _atom_state(b, f)
+            o = get(b, 1)
+            if o is None:
+                continue
+            _edit(o)
+            try:
+                changed = not _same_state(s0, _atom_state(b, f))
+            except Exception:   # noqa: BLE001
+                changed = True
+            by_ref[name] = by_ref.get(name, False) or changed
+    obs["AtomGrid objects handed out by reference by convention, an in-place edit of which changes the grid: " + ", ".join(sorted(k for k, v in by_ref.items() if v))] = any(by_ref.values())
+    # molecular level: stored atomic grids (rotate = 37 by default in from_size), everything handed out edited, then observed / rebuilt
+    atn, atc = np.array([8, 1]), np.array([[0.0, 0.0, -0.7], [0.0, 0.3, 0.7]])
+    builders = [("from_size(rotate default)", lambda: mol.MolGrid.from_size(atn, atc, 14, rg, bk.BeckeWeights(), store=True)),
+                ("from_size(rotate=0)", lambda: mol.MolGrid.from_size(atn, atc, 14, rg, bk.BeckeWeights(), store=True, rotate=0)),
+                ("MolGrid(list of rotated atomic grids)", lambda: mol.MolGrid(atn, [atg.AtomGrid(rg, degrees=[5, 3, 7], rotate=5, center=c) for c in atc], bk.BeckeWeights(), store=True))]
+    for bname, build in builders:
+        try:
+            mg = build()
+        except TypeError:
+            continue
+        fm = np.exp(-np.sum(mg.points ** 2, axis=1))
+        k0 = dict(points=mg.points.copy(), weights=mg.weights.copy(), integral=mg.integrate(fm), at=[_atom_state(mg.get_atomic_grid(k), f) for k in range(2)],
+                  rot=[mg.get_atomic_grid(k).rotate for k in range(2)])
+        outs = [("get_atomic_grid(k).get_shell_grid(i)", lambda: mg.get_atomic_grid(1).get_shell_grid(ctx.rng.randrange(3))),
+                ("self[k].get_shell_grid(i, r_sq=False)", lambda: mg[0].get_shell_grid(1, r_sq=False)),
+                ("atgrids[k].points", lambda: mg.atgrids[0].points),
+                ("get_atomic_grid(k).get_localgrid", lambda: mg.get_atomic_grid(0).get_localgrid(atc[0], 1.5)),
+                ("get_localgrid", lambda: mg.get_localgrid(np.zeros(3), 1.2)),
+                ("get_atomic_grid(k).convert_cartesian_to_spherical()", lambda: mg.get_atomic_grid(1).convert_cartesian_to_spherical())]
+        for oname, get in outs:
+            _edit(get())
+            ok = (np.array_equal(mg.points, k0["points"]) and np.array_equal(mg.weights, k0["weights"]) and mg.integrate(fm) == k0["integral"]
+                  and all(_same_state(k0["at"][k], _atom_state(mg.get_atomic_grid(k), f)) for k in range(2)))
+            later = mol.MolGrid(atn, [mg.get_atomic_grid(k) for k in range(2)], bk.BeckeWeights())
+            ok = ok and np.array_equal(later.points, k0["points"]) and np.array_equal(later.weights, k0["weights"])
+            ctx.count(["oracle-handout-molgrid", bname, oname], nontrivial=True, tag="oracle:handed-out")
+            if not ok:
+                ctx.fail("oracle", "molgrid.MolGrid:handed-out",
+                         f"MolGrid.{bname} (atomic grids rotate = {k0['rot']}): after an in-place edit of what `{oname}` returned, the molecular grid, one of its atomic grids, or a MolGrid built from them afterwards differs from before",
+                         witness={"builder": bname, "handed_out": oname, "rotate": [int(r) for r in k0["rot"]]},
+                         snippet=("import warnings; warnings.filterwarnings('ignore')\nimport numpy as np\nfrom grid.molgrid import MolGrid\nfrom grid.becke import BeckeWeights\nfrom grid.onedgrid import GaussLegendre\nfrom grid.rtransform import BeckeRTransform\n"
+                                  "rg = BeckeRTransform(0.0, 1.5).transform_1d_grid(GaussLegendre(3)); atn, atc = np.array([8, 1]), np.array([[0, 0, -.7], [0, .3, .7]])\n"
+                                  "mg = MolGrid.from_size(atn, atc, 14, rg, BeckeWeights(), store=True); p = mg.points.copy(); ap = mg.get_atomic_grid(1).points.copy()\n"
+                                  "s = mg.get_atomic_grid(1).get_shell_grid(1); s.points[...] = -7.25; s.weights[...] = -7.25\n"
+                                  "assert np.array_equal(mg.get_atomic_grid(1).points, ap), 'editing a shell grid changed the stored atomic grid'\n"
+                                  "later = MolGrid(atn, [mg.get_atomic_grid(k) for k in range(2)], BeckeWeights()); assert np.array_equal(later.points, p)\n"))
+                break
+    return obs
+
+
+def bg_copy(rg):
+    """A OneDGrid of its own (so that editing `atomgrid.rgrid` does not touch the one shared by the other cases)."""
+    bg = importlib.import_module("grid.basegrid")
+    return bg.OneDGrid(rg.points.copy(), rg.weights.copy(), rg.domain)
